@@ -16,7 +16,7 @@ func init() {
 		Level: "other",
 		Explanation: "Acknowledgement ordering decided on every path (all schedules, all store failures): R06a in executionContext.run the chained log obtained from the executor is stored/returned only after a receive on the executor's done channel (a log found by idempotency key is already persisted); every hand-off (call of a function that reaches Batcher.Append and returns the done channel) happens in an executor passed to run or in another such function that returns the channel. " +
 			"R06b the done channel is closed only inside the callback given to the hand-off or on the DryRun edge. R06c the batch callback field is invoked only in batcherJob.Terminated; Job.Terminated is invoked only in Runner.Run on values received from the channel the worker sends to, and the worker sends a job there only on the nil-error edge of the runner call. " +
-			"R06d on the error edge of the runner call every path panics; the error channel arm of Runner.Run panics. R06e InsertLogs does all its statements inside withTransaction→RunInTx on the transaction handle and drops no error. R06f no executor returns an error after a successful hand-off. R06g when the completion channel carries the outcome (chan error), no received outcome is discarded. R05h (shared with C05) a batch taken from the batcher never aliases the buffer later appends write into: the callback that acknowledges a write belongs to the log that was persisted. R06i the job NewBatcher hands to the runner returns the error of the persistence call on every path (nil only behind its nil edge). R06h the hand-off cannot refuse: every returning path of Batcher.Append has queued its object, so a request is never rejected after the commander advanced the chain head and the transaction id for it (a rejected request leaves no trace).",
+			"R06d on the error edge of the runner call every path panics; the error channel arm of Runner.Run panics. R06e InsertLogs does all its statements inside withTransaction→RunInTx on the transaction handle and drops no error. R06f no executor returns an error after a successful hand-off. R06g when the completion channel carries the outcome (chan error), no received outcome is discarded. R05h (shared with C05) a batch taken from the batcher never aliases the buffer later appends write into: the callback that acknowledges a write belongs to the log that was persisted. R06j Store.withTransaction and the literal it gives RunInTx discard no error and return nil only behind a nil test. R06i the job NewBatcher hands to the runner returns the error of the persistence call on every path (nil only behind its nil edge). R06h the hand-off cannot refuse: every returning path of Batcher.Append has queued its object, so a request is never rejected after the commander advanced the chain head and the transaction id for it (a rejected request leaves no trace).",
 		NotDecided:  "durability of PostgreSQL commits; client-visible behaviour when the process dies between commit and acknowledgement (the log exists, the client saw no answer — allowed by the statement).",
 		Trusted:     []string{"channel close/receive semantics", "pond worker pool runs the submitted function", "database/sql transaction semantics"},
 		Assumptions: []string{"the process terminates on an unrecovered panic in the commander's goroutine"},
@@ -28,6 +28,7 @@ func init() {
 		ruleR06g(c)
 		ruleAppendAlwaysEnqueues(c, "R06h")
 		ruleR06i(c)
+		ruleTxWrapperPropagates(c, "R06j")
 		ruleR05h(c)
 	})
 }
